@@ -17,6 +17,12 @@
     __CPROVER_decreases(g_avail_obj - g_pops_obj)
 #endif
 
+#ifdef C23_L3_SHUTDOWN_LOOP
+#define VERIF_LOOP_SHUTDOWN                                                          \
+    __CPROVER_assigns(i, g_shutdowns, g_shutdown_last)                               \
+    __CPROVER_loop_invariant(i <= resource_ptr->full_queue->process_total_count && g_shutdowns == i) \
+    __CPROVER_decreases(resource_ptr->full_queue->process_total_count - i)
+#endif
 #ifdef SCRATCH_EbSystemResourceManager_c
 #include SCRATCH_EbSystemResourceManager_c
 #else
@@ -40,4 +46,31 @@ void h_assignation(void) {
     __CPROVER_assert(0, "CANARY returns");
     __CPROVER_assert(!(g_pops_obj == 3 && g_avail_proc == 5), "CANARY three pairs can be formed");
 }
+#endif
+#ifdef C23_L2
+void h_mq_pushb(void) { EbMuxingQueue *q; EbObjectWrapper *o; svt_muxing_queue_object_push_back(q, o); __CPROVER_assert(0, "CANARY returns"); }
+void h_mq_pushf(void) { EbMuxingQueue *q; EbObjectWrapper *o; svt_muxing_queue_object_push_front(q, o); __CPROVER_assert(0, "CANARY returns"); }
+void h_relproc(void) { EbFifo *f; svt_release_process(f); __CPROVER_assert(0, "CANARY returns"); }
+#endif
+#ifdef C23_L3
+#define C  __CPROVER_assert(0, "CANARY returns")
+#ifndef C23_L3_NONBLOCKING
+void h_get_full(void) { EbFifo *f; EbObjectWrapper **o; svt_get_full_object(f, o); C; }
+#else
+void h_get_full_nb(void) { EbFifo *f; EbObjectWrapper **o; svt_get_full_object_non_blocking(f, o); C; }
+#endif
+void h_get_empty(void) { EbFifo *f; EbObjectWrapper **o; svt_get_empty_object(f, o); C; }
+void h_release(void) { EbObjectWrapper *o; svt_release_object(o); C; }
+void h_post(void) { EbObjectWrapper *o; svt_post_full_object(o); C; }
+void h_inc(void) { EbObjectWrapper *o; uint32_t n; svt_object_inc_live_count(o, n); C; }
+void h_enable(void) { EbObjectWrapper *o; svt_object_release_enable(o); C; }
+void h_disable(void) { EbObjectWrapper *o; svt_object_release_disable(o); C; }
+#ifndef C23_L3_SHUTDOWN_LOOP
+void h_fifo_shutdown(void) { EbFifo fifo; /* unconstrained content */
+    g_shut_fifo = &fifo;
+    svt_fifo_shutdown(&fifo); C; }
+#else
+void h_shutdown(void) { const EbSystemResource *r; svt_shutdown_process(r); C;
+    __CPROVER_assert(!(g_shutdowns == 3), "CANARY three consumers shut down"); }
+#endif
 #endif
